@@ -350,12 +350,12 @@ Proof.
   - destruct (deliver ds (st s) d) as [s' r] eqn:Ed. cbn [fst st].
     replace s' with (fst (deliver ds (st s) d)) by (rewrite Ed; reflexivity).
     rewrite deliver_untouched; [exact Hd|]. left. apply eligible_done; exact Hd.
-  - assert (A : is_done (lookup (set_all (st s) b Done) k) = true).
-    { rewrite lookup_set_all. destruct (kmem k b); [reflexivity | exact Hd]. }
-    destruct ds; cbn [fst st]; try exact A.
-    destruct (subset b (inflight s)); cbn [fst st]; [exact A | exact Hd].
+  - assert (A : forall l, is_done (lookup (set_all (st s) l Done) k) = true).
+    { intros l. rewrite lookup_set_all. destruct (kmem k l); [reflexivity | exact Hd]. }
+    destruct ds; cbn [fst st]; try apply A.
+    destruct (subset (keys_of b) (inflight s)); cbn [fst st]; [apply A | exact Hd].
   - destruct ds; cbn [fst st]; try exact Hd.
-    destruct (subset b (inflight s)) eqn:Es; cbn [fst st]; [|exact Hd].
+    destruct (subset (keys_of b) (inflight s)) eqn:Es; cbn [fst st]; [|exact Hd].
     rewrite fail_all_done; exact Hd.
   - exact Hd.
   - destruct ds; cbn [fst st]; try exact Hd.
@@ -369,8 +369,8 @@ Proof.
   destruct o as [d|b|b| |b]; cbn [step].
   - destruct (deliver ds (st s) d) as [s' r] eqn:Ed. cbn [snd]. intros Hin.
     exact (proj1 (deliver_sound _ _ _ _ _ _ Ed Hin)).
-  - destruct ds; try (cbn; contradiction). destruct (subset b (inflight s)); cbn; contradiction.
-  - destruct ds; try (cbn; contradiction). destruct (subset b (inflight s)); cbn; contradiction.
+  - destruct ds; try (cbn; contradiction). destruct (subset (keys_of b) (inflight s)); cbn; contradiction.
+  - destruct ds; try (cbn; contradiction). destruct (subset (keys_of b) (inflight s)); cbn; contradiction.
   - cbn; contradiction.
   - destruct ds; cbn; contradiction.
 Qed.
@@ -464,9 +464,9 @@ Proof.
         destruct (btc_select_complete (e :: d') (st s) Hnf) as [sx [lx [Hx Hc]]].
         rewrite Hx in H0. inversion H0; subst. cbn [signed_of]. apply Hc; [exact Hin | exact He].
   - cbn [step] in Es. destruct ds; try (inversion Es; reflexivity).
-    destruct (subset b (inflight s)); inversion Es; reflexivity.
+    destruct (subset (keys_of b) (inflight s)); inversion Es; reflexivity.
   - cbn [step] in Es. destruct ds; try (inversion Es; reflexivity).
-    destruct (subset b (inflight s)); inversion Es; reflexivity.
+    destruct (subset (keys_of b) (inflight s)); inversion Es; reflexivity.
   - inversion Es; reflexivity.
   - cbn [step] in Es. destruct ds; inversion Es; reflexivity.
 Qed.
@@ -536,3 +536,94 @@ Proof.
   - eapply IH; [exact Hr | exact Hu | | exact Hin].
     unfold final_ok in Hf. rewrite forallb_forall in Hf. specialize (Hf k Hu). rewrite Hd in Hf. exact Hf.
 Qed.
+
+(* ---- store faults at the status reads / writes of a session end or of a retry release (round 5) ---- *)
+
+Lemma keys_of_plain b : keys_of (plain b) = b.
+Proof. unfold keys_of, plain. rewrite map_map. cbn [fst]. apply map_id. Qed.
+
+Lemma filter_plain (f : key * fault -> bool) b :
+  (forall k, f (k, NoFault) = true) -> filter f (plain b) = plain b.
+Proof.
+  intros Hf. unfold plain. induction b as [|x b IH]; cbn [map filter]; [reflexivity|].
+  rewrite Hf, IH. reflexivity.
+Qed.
+
+Lemma nofault_keys_plain b : nofault_keys (plain b) = b.
+Proof. unfold nofault_keys. rewrite filter_plain by reflexivity. apply keys_of_plain. Qed.
+
+Lemma written_keys_plain b : written_keys (plain b) = b.
+Proof. unfold written_keys. rewrite filter_plain by reflexivity. apply keys_of_plain. Qed.
+
+Lemma in_nofault_keys b k : In k (nofault_keys b) <-> In (k, NoFault) b.
+Proof.
+  unfold nofault_keys, keys_of. rewrite in_map_iff. split.
+  - intros [[k' f] [Hk Hin]]. cbn in Hk; subst k'. apply filter_In in Hin as [Hin Hf].
+    unfold is_nofault in Hf; cbn in Hf. destruct f; try discriminate. exact Hin.
+  - intros Hin. exists (k, NoFault). split; [reflexivity|]. apply filter_In. split; [exact Hin | reflexivity].
+Qed.
+
+Lemma in_written_keys b k : In k (written_keys b) <-> exists f, In (k, f) b /\ f <> WriteErr.
+Proof.
+  unfold written_keys, keys_of. rewrite in_map_iff. split.
+  - intros [[k' f] [Hk Hin]]. cbn in Hk; subst k'. apply filter_In in Hin as [Hin Hf].
+    exists f. split; [exact Hin|]. intros ->. discriminate.
+  - intros [f [Hin Hf]]. exists (k, f). split; [reflexivity|]. apply filter_In. split; [exact Hin|].
+    unfold not_write_fault; cbn. destruct f; try reflexivity. congruence.
+Qed.
+
+Lemma nofault_keys_sub b k : In k (nofault_keys b) -> In k (keys_of b).
+Proof. intros H. apply in_nofault_keys in H. apply in_map_iff. exists (k, NoFault). split; [reflexivity | exact H]. Qed.
+
+Lemma written_keys_sub b k : In k (written_keys b) -> In k (keys_of b).
+Proof.
+  intros H. apply in_written_keys in H as [f [H _]]. apply in_map_iff. exists (k, f). split; [reflexivity | exact H].
+Qed.
+
+Lemma kmem_false_notin k l : ~ In k l -> kmem k l = false.
+Proof. intros H. destruct (kmem k l) eqn:E; [apply kmem_In in E; contradiction | reflexivity]. Qed.
+
+(* the end of a failing execution, for every placement of read / write faults: a transfer is marked failed
+   iff some status read AND the write made for it go through and its record does not say executed; every
+   other record - in particular that of a transfer whose guard read fails - stays what it was *)
+Lemma failed_end_with_faults s inf b k :
+  subset (keys_of b) inf = true ->
+  lookup (st (fst (step BTC (mkstate s inf) (ExecFail b)))) k =
+  if kmem k (nofault_keys b) && negb (is_done (lookup s k)) then Failed else lookup s k.
+Proof. intros Hs. cbn [step st inflight]. rewrite Hs. cbn [fst st]. apply lookup_fail_all. Qed.
+
+Lemma faulted_end_untouched s inf b k :
+  (forall f, In (k, f) b -> f <> NoFault) ->
+  lookup (st (fst (step BTC (mkstate s inf) (ExecFail b)))) k = lookup s k /\
+  lookup (st (fst (step BTC (mkstate s inf) (Release b)))) k = lookup s k.
+Proof.
+  intros Hf. assert (Hn : kmem k (nofault_keys b) = false).
+  { apply kmem_false_notin. intros Hin. apply in_nofault_keys in Hin. exact (Hf _ Hin eq_refl). }
+  split; cbn [step st inflight].
+  - destruct (subset (keys_of b) inf); cbn [fst st]; [|reflexivity].
+    rewrite lookup_fail_all, Hn. reflexivity.
+  - cbn [fst st]. rewrite lookup_release_all, Hn. reflexivity.
+Qed.
+
+(* the end of a successful execution: recorded executed unless every write made for the transfer fails *)
+Lemma ok_end_with_faults s inf b k :
+  subset (keys_of b) inf = true ->
+  lookup (st (fst (step BTC (mkstate s inf) (ExecOk b)))) k =
+  if kmem k (written_keys b) then Done else lookup s k.
+Proof. intros Hs. cbn [step st inflight]. rewrite Hs. cbn [fst st]. apply lookup_set_all. Qed.
+
+(* a retry request with faults: releases exactly the pending transfers whose read and write go through *)
+Lemma release_with_faults s inf b k :
+  lookup (st (fst (step BTC (mkstate s inf) (Release b)))) k =
+  if kmem k (nofault_keys b) && is_pending (lookup s k) then Failed else lookup s k.
+Proof. cbn [step st inflight fst]. apply lookup_release_all. Qed.
+
+(* the history of the class: [P; Q] in flight, a retry releases P, the overlapping execution of P
+   succeeds, the first execution fails and cannot read P's record: P stays executed, only Q is signed again *)
+Definition w_read_fault_ops : list op :=
+  [Deliver [((1, 7), NoFault); ((1, 8), NoFault)];
+   Release (plain [(1, 7)]);
+   Deliver [((1, 7), NoFault)];
+   ExecOk (plain [(1, 7)]);
+   ExecFail [((1, 7), ReadErr); ((1, 8), NoFault)];
+   Deliver [((1, 7), NoFault); ((1, 8), NoFault)]].
